@@ -34,6 +34,12 @@ def _client(sess: dict):
         if sess.get("alpn") == "h2":
             h2c = C.H2Client(**(sess.get("h2opts") or {}))
         notes: List[str] = []
+        deaf = [False]          # the client can no longer receive (its side of the transport is broken): its view is frozen
+
+        def take() -> bytes:
+            data = io.take()
+            return b"" if deaf[0] else data
+
         for st in sess["client"]:
             op = st[0]
             if io.closed_at is not None and op in ("send", "eof", "send_eof", "reset", "resume"):
@@ -52,6 +58,10 @@ def _client(sess: dict):
                     await io.send_eof(s2b(st[1]))
                 elif op == "reset":
                     TAPLOG.append(["peerGone"])
+                    if h2c is not None:
+                        h2c.receive(take())
+                    notes.append(f"peer gone after {len(io.out)} bytes")
+                    deaf[0] = True
                     await io.reset()
                 elif op == "pause":
                     io.pause_writes()
@@ -59,6 +69,10 @@ def _client(sess: dict):
                     await io.resume_writes()
                 elif op == "fail_writes":
                     TAPLOG.append(["peerGone"])
+                    if h2c is not None:
+                        h2c.receive(take())
+                    notes.append(f"peer gone after {len(io.out)} bytes")
+                    deaf[0] = True
                     io.fail_writes()
                 elif op == "h2.req":
                     hs = [(s2b(n), s2b(v)) for n, v in st[2]]
@@ -83,23 +97,27 @@ def _client(sess: dict):
                                 pass
                     h2c.unacked.clear()
                 elif op == "h2.pump":
-                    if io.closed_at is None:
+                    if io.closed_at is None and not deaf[0]:
                         await h2c.pump(io)
+                    elif io.closed_at is None:
+                        out = h2c.out()
+                        if out:
+                            await io.send(out)
                     else:
-                        h2c.receive(io.take())
+                        h2c.receive(take())
                 else:
                     raise ValueError(f"unknown client step {op}")
             except Exception as e:  # a client-side library refusing a step (e.g. stream already closed) is part of the session
                 notes.append(f"{op}: {type(e).__name__}")
         if h2c is not None:
-            if io.closed_at is None:
+            if io.closed_at is None and not deaf[0]:
                 await h2c.pump(io)
             await io.sleep(sess.get("linger", 3.0))
-            if io.closed_at is None:
+            if io.closed_at is None and not deaf[0]:
                 await h2c.pump(io)
             else:
-                h2c.receive(io.take())
-            return {"h2": h2c.summary(), "h2events": h2c.events, "notes": notes}
+                h2c.receive(take())
+            return {"h2": h2c.summary(), "h2events": h2c.events, "notes": notes, "deaf_after": len(io.out) if False else None}
         await io.sleep(sess.get("linger", 3.0))
         return {"notes": notes}
     return client
@@ -137,13 +155,19 @@ def observation(sess: dict, res: dict) -> dict:
         obs["client"] = {"streams": streams, "goaway": summ["goaway"], "error": summ["error"]}
     else:
         methods = sess.get("methods") or ["GET"] * 16
-        p = C.parse_h1(res["out"], methods, server_closed=res["closed_at"] is not None)
+        out_bytes = res["out"]
+        for n in cr.get("notes") or []:
+            m = re.match(r"peer gone after (\d+) bytes", n)
+            if m:
+                out_bytes = out_bytes[:int(m.group(1))]      # what a client whose transport broke had received by then
+                break
+        p = C.parse_h1(out_bytes, methods, server_closed=res["closed_at"] is not None)
         rs = []
         for r in p["responses"]:
             rs.append({"status": r.get("status"), "headers": mask_date(r.get("headers") or []), "body": r.get("body", ""),
                        "complete": bool(r.get("complete")), "informational": bool(r.get("informational"))})
         obs["client"] = {"responses": rs, "error": p["error"], "trailing": p["trailing"],
-                         "raw": b2s(DATE_RE.sub(b"date: *\r\n", res["out"])) if sess.get("raw_compare", True) else None}
+                         "raw": b2s(DATE_RE.sub(b"date: *\r\n", out_bytes)) if sess.get("raw_compare", True) else None}
     obs["internal"] = {"error": res["error"], "loop_errors": res["loop_errors"], "client_error": res["client_error"],
                        "stuck": res.get("stuck_session", False)}
     obs["aux"] = {"access": [a[1:] for a in res["access"]], "handler_done": res["handler_done"], "exceptions": len(res["exceptions"]),
@@ -173,10 +197,17 @@ def diff(oa: dict, ot: dict) -> List[dict]:
                         if "what" in d:
                             break
             elif k == "client":
-                for f in set(oa[k]) | set(ot[k]):
+                for f in sorted(set(oa[k]) | set(ot[k])):
                     if oa[k].get(f) != ot[k].get(f):
                         d["what"] = f
-                        d["asyncio"], d["trio"] = _short(oa[k].get(f)), _short(ot[k].get(f))
+                        if f == "streams":
+                            def summ(st):
+                                return {sid: [None if x["headers"] is None else dict(x["headers"]).get(":status"), len(x["data"]), x["ended"], x["reset"]]
+                                        for sid, x in (st or {}).items()}
+                            d["asyncio"], d["trio"] = summ(oa[k].get(f)), summ(ot[k].get(f))
+                            d["legend"] = "stream: [status, bytes of data, END_STREAM seen, reset code]"
+                        else:
+                            d["asyncio"], d["trio"] = _short(oa[k].get(f)), _short(ot[k].get(f))
                         break
             else:
                 d["asyncio"], d["trio"] = oa[k], ot[k]
